@@ -79,9 +79,7 @@ theorem C16_header_done (c : Bytes) (p : Bytes) (h : header c = .done p) :
                 · cases h
 
 /-- **No unbounded wait in reads**: if every `Read` returns at least one byte, at most
-    header + 65535 + 1 reads are made (each is guarded by its own read deadline in the code; note
-    that the deadline is per read, so the total time is bounded by this number times the timeout,
-    not by the timeout). -/
+    header + 65535 + 1 reads are made (the time they take is the subject of `C16_reader_time` below). -/
 theorem C16_reader_reads (chunk : Bytes) (conn : List Bytes) (hne : ∀ r ∈ conn, r ≠ []) :
     (readMessage chunk conn).reads ≤ Hs.needBase + Hs.maxLen + 1 := by
   have := loop_reads conn hne chunk Hs.headerLen chunk.length 0 (Nat.le_refl _)
@@ -99,23 +97,34 @@ theorem C16_reader_roundtrip (p chunk : Bytes) (conn : List Bytes) (hp : p.lengt
   loop_roundtrip p hp conn chunk _ _ _ hsegs hall (Or.inl rfl)
 
 /-- **Time, full statement**: a call with read timeout `t` is over within `t`, whatever the peer does. -/
-def C16_reader_time_full : Prop :=
+def C16_reader_time_full (pm : Bool) : Prop :=
   ∀ (t : Nat) (chunk : Bytes) (conn : List Bytes) (delays : List Nat), (∀ r ∈ conn, r ≠ []) →
-    elapsed t delays (readMessage chunk conn).reads ≤ t
+    elapsed pm t delays (readMessage chunk conn).reads ≤ t
 
-/-- refuted (finding): the deadline is re-armed before every read, so a peer that sends one byte just
-    before each deadline keeps the reader — and the node's serial accept loop that called it — busy. Two
-    one-byte reads, each arriving after 1000 of a 1000 ms timeout, already take 2000. -/
-theorem C16_reader_time_counterexample : ¬ C16_reader_time_full := by
+/-- **Time, for the code as it is**: the read deadline is armed once per message, so reading one handshake message
+    takes at most the timeout however the peer spaces its bytes. -/
+theorem C16_reader_time : C16_reader_time_full Hs.deadlinePerMessage := by
+  have h : Hs.deadlinePerMessage = true := by decide
+  rw [h]
+  intro t chunk conn delays _
+  unfold elapsed
+  simp only [if_true]
+  exact Nat.min_le_right _ _
+
+/-- the code before the repair (listed finding D26-trickle, now fixed): the deadline was re-armed before every read, so
+    a peer that sent one byte just before each deadline kept the reader — and the node's serial accept loop that called
+    it — busy. Two one-byte reads, each arriving after 1000 of a 1000 ms timeout, already take 2000. Kept as a regression
+    statement. -/
+theorem C16_reader_time_before_fix : ¬ C16_reader_time_full false := by
   intro h
   have := h 1000 [] [[87], [1]] [1000, 1000] (by decide)
   revert this; decide
 
-/-- what does hold: the time is bounded by the number of reads times the timeout, i.e. by
+/-- what held for the per-read deadline: the time was bounded only by the number of reads times the timeout, i.e. by
     (header + 65535 + 1) timeouts — about 18 hours for the 1 s used by Start/Accept/Join. -/
-theorem C16_reader_time_partial (t : Nat) (chunk : Bytes) (conn : List Bytes) (delays : List Nat)
+theorem C16_reader_time_per_read (t : Nat) (chunk : Bytes) (conn : List Bytes) (delays : List Nat)
     (hne : ∀ r ∈ conn, r ≠ []) :
-    elapsed t delays (readMessage chunk conn).reads ≤ (Hs.needBase + Hs.maxLen + 1) * t := by
+    elapsed false t delays (readMessage chunk conn).reads ≤ (Hs.needBase + Hs.maxLen + 1) * t := by
   have hr := C16_reader_reads chunk conn hne
   have hsum : ∀ (l : List Nat), (l.map (fun d => min d t)).sum ≤ l.length * t := by
     intro l
@@ -126,6 +135,7 @@ theorem C16_reader_time_partial (t : Nat) (chunk : Bytes) (conn : List Bytes) (d
       have : min a t ≤ t := Nat.min_le_right _ _
       rw [Nat.add_mul]; omega
   unfold elapsed
+  simp only [Bool.false_eq_true, if_false]
   refine Nat.le_trans (hsum _) (Nat.mul_le_mul_right _ ?_)
   rw [List.length_take]
   exact Nat.le_trans (Nat.min_le_left _ _) hr
